@@ -46,6 +46,11 @@ def NameSpec.separated (builtins : List Str) (s : NameSpec) : Bool :=
   && s.families.all (fun p => s.heads.all (fun h => !comparable p h))
   && s.families.all (fun p => builtins.all (fun b => !p.isPrefixOf b))
 
+/-- no family prefix is a prefix of a keyword: `p ++ field_id` can then never be a keyword, whatever the id
+    (every family of the generators ends in `_`, no keyword contains one). -/
+def NameSpec.keywordFree (keywords : List Str) (s : NameSpec) : Bool :=
+  s.families.all (fun p => keywords.all (fun k => !p.isPrefixOf k))
+
 /-! ## BuiltinCascadeNamespace -/
 
 structure Namespace where
@@ -77,6 +82,11 @@ def Namespace.tryRegisterVar (builtins : List Str) (ns : Namespace) (name : Str)
   if ns.occupied.contains name || (lookupName ns.constants name).isSome || ns.variables.contains name
       || (builtins.contains name && !ns.allowBuiltins) then (false, ns)
   else (true, { ns with variables := ns.variables ++ [name] })
+
+/-- every name `try_add_constant` can refuse: parameters / own name, variables, outer constants, builtins and
+    the constants already bound.  Finite — the reason why the `itertools.count` loop of `register_mangled` ends. -/
+def Namespace.blockers (builtins : List Str) (ns : Namespace) : List Str :=
+  ns.occupied ++ ns.variables ++ ns.outer.map (·.1) ++ builtins ++ ns.constants.map (·.1)
 
 def decimal (n : Nat) : Str := (Nat.toDigits 10 n).map Char.toNat
 
